@@ -94,7 +94,7 @@ def judge_term(t, rng, stats, where):
     else:
         nodes = {}
         for nd in R.metavar_nodes(t): nodes.setdefault(nd[1], []).append(nd)
-        for _ in range(4):
+        for _ in range(3):
             sigma = {}
             for i, nds in nodes.items():
                 merged = ('m', i, tuple(sorted({x for n in nds for x in n[2]})), tuple(sorted({x for n in nds for x in n[3]})),
@@ -112,7 +112,7 @@ def judge_term(t, rng, stats, where):
         if not R.concrete_wf(inst):
             return ('the checker proved %s whose %s is not a well-formed pattern (a mu binds a variable occurring negatively)'
                     % (R.show(t), 'instance %s' % R.show(inst) if sigma else 'statement'), {'instance': R.show(inst)})
-        cm = refsem.find_countermodel(inst, rng, tries=16)
+        cm = refsem.find_countermodel(inst, rng, tries=10)
         stats.classes['instances-evaluated'] += 1
         if cm is not None:
             return ('the checker proved %s but %s is not valid: counter-model %s'
@@ -153,7 +153,7 @@ def body(c, stats: Stats):
 
 
 def shard(stats: Stats, shard_i, nshards, seed, tier):
-    n = {'quick': 450, 'thorough': 12000}[tier]
+    n = {'quick': 350, 'thorough': 12000}[tier]
     common.run_given(stats, seed, n, programs(), body)
 
 
